@@ -37,7 +37,7 @@ class Prop(common.PropertyCheck):
             cont = rng.choice(['array', 'sample', 'sample_rfi'])
             yield {'g': 'high_low', 'cont': cont, 'dtype': rng.choice(['int', 'float', 'float_nan']) if cont == 'array' else rng.choice(['int', 'float']),
                    'N': rng.choice([0, 1, 3, 12, 40]), 'chform': rng.choice(['none', 'name', 'pos', 'list', 'list1']),
-                   'high': rng.choice(['default', 'scalar', 'list', 'atvalue', 'near']), 'low': rng.choice(['default', 'scalar', 'list', 'atvalue', 'near']),
+                   'high': rng.choice(['default', 'scalar', 'list', 'atvalue', 'near', 'below_low']), 'low': rng.choice(['default', 'scalar', 'list', 'atvalue', 'near']),
                    'big': rng.random() < 0.3,
                    'seed': rng.randrange(1 << 30)}
         for _ in range(self.budget(400, 5000)):
@@ -56,6 +56,11 @@ class Prop(common.PropertyCheck):
             th = rng.choice([0.004, -0.003, 0.0007, 0.002, -0.0044, 0.01]) + rng.choice([0, 0, math.pi, 2 * math.pi, -math.pi])
             yield {'g': 'ellipse', 'cont': 'array', 'N': 40, 'a': rng.choice([300., 450., 900.]), 'b': rng.choice([0.5, 1.0, 0.2]), 'theta': th,
                    'center': [rng.uniform(400, 600), rng.uniform(400, 600)], 'log': False, 'thin': True, 'chform': 'pos', 'dtype': 'float', 'seed': rng.randrange(1 << 30)}
+        # unsigned integer containers with the centre given as plain Python integers (and thresholds in the reverse order for high_low)
+        for _ in range(self.budget(80, 800)):
+            yield {'g': 'ellipse', 'cont': rng.choice(['array', 'sample']), 'N': rng.choice([20, 60]), 'a': float(rng.choice([150, 300, 420])), 'b': float(rng.choice([100, 250])),
+                   'theta': rng.choice([0.0, 0.6, -1.1]), 'center': [rng.choice([300, 500, 700]), rng.choice([200, 400, 600])], 'log': False,
+                   'chform': rng.choice(['names', 'pos']), 'dtype': 'uint', 'int_center': True, 'seed': rng.randrange(1 << 30)}
         for bad in ('ellipse1', 'ellipse3', 'startend_too_many'):
             yield {'g': 'bad', 'what': bad}
 
@@ -65,7 +70,9 @@ class Prop(common.PropertyCheck):
         N = case['N']
         if case['cont'] == 'array':
             D = 3
-            if case.get('dtype', 'int') == 'int':
+            if case.get('dtype') == 'uint':
+                a = r.randint(0, 1024, size=(N, D)).astype(np.uint16)
+            elif case.get('dtype', 'int') == 'int':
                 a = r.randint(0, 1024, size=(N, D)).astype(np.int64)
                 if case.get('big'):
                     a = r.randint(262000, 262144, size=(N, D)).astype(np.int64)
@@ -134,6 +141,8 @@ class Prop(common.PropertyCheck):
                 def thr(kind, which):
                     if kind == 'default':
                         return None
+                    if kind == 'below_low':
+                        return float(r.choice([3, -1, 0.5]))        # usually below the low threshold: nothing lies in between
                     if kind == 'scalar':
                         return float(r.choice([0, 1, 500, 1022, 1023, 3.5]))
                     if kind == 'atvalue' and sub.size and np.isfinite(sub.flat[0]):
@@ -180,6 +189,8 @@ class Prop(common.PropertyCheck):
                     dd = (np.abs(d) + 1) if names is None else FlowCal.transform.transform(d, None, lambda x: np.abs(np.asarray(x, dtype=float)) + 1)
                     arr = np.asarray(dd, dtype=np.float64)
                 center = case['center'] if (not case['log'] or case.get('lograw')) else [math.log10(abs(c) + 2) for c in case['center']]
+                if case.get('int_center'):
+                    center = [int(c) for c in center]
                 a, b = (case['a'], case['b']) if (not case['log'] or case.get('lograw')) else (case['a'] / 100 + 0.1, case['b'] / 100 + 0.1)
                 try:
                     # an unrelated earlier call in the same process (results must not depend on the call history)
